@@ -19,6 +19,8 @@ import (
 	"encoding/binary"
 	"encoding/json"
 	"fmt"
+	"os"
+	"strings"
 	"time"
 
 	"github.com/glowlabs-org/gca-backend/glow"
@@ -149,7 +151,8 @@ func (st *c13State) checkRates() {
 	allowed := map[uint32]bool{Slot(): true}
 	parkedNow := map[string]bool{}
 	for _, p := range st.w.S.Parked(true) {
-		if p.Node == n.Name && p.Site == "impact.prelock" {
+		_, fetched := st.fetchedAt[p.Name]
+		if p.Node == n.Name && (p.Site == "impact.prelock" || (fetched && strings.HasPrefix(p.Site, "auto."))) {
 			parkedNow[p.Name] = true
 		}
 	}
@@ -190,7 +193,7 @@ func keysOf(m map[uint32]bool) []uint32 {
 func (st *c13State) onPark(p *Parked) {
 	w := st.w
 	w.Logf("park %s at %s", p.Name, p.Site)
-	interesting := false
+	interesting := strings.HasPrefix(p.Site, "auto.")
 	for _, s := range c13Sites {
 		if s == p.Site {
 			interesting = true
@@ -214,6 +217,20 @@ func (st *c13State) interferer(p *Parked) {
 	off := h.N.Model.Offset
 	menu := w.C.Weighted("menu", 3, 2, 3, 2, 2, 1, 1, 1)
 	aim := st.focus // the device the parked operation is (most likely) about
+	// Operations of one kind conflict most with each other (two registrations,
+	// two posts about one server, two reports for one slot): a third of the
+	// time the interferer is of the kind of the parked operation.
+	if w.C.Chance("same-kind", 1, 3) {
+		for _, km := range []struct {
+			kind string
+			menu int
+		}{{":register", 7}, {":srvpost", 5}, {":udp@", 2}, {":auth", 0}, {":sync", 6}} {
+			if strings.Contains(p.Name, km.kind) {
+				menu = km.menu
+				break
+			}
+		}
+	}
 	if (p.Site == "srvauth.between" || p.Site == "srvauth.prenet") && w.C.Chance("list-op-in-list-gap", 1, 3) {
 		menu = 5
 	}
@@ -359,7 +376,10 @@ func (st *c13State) opReportFor(aim *Device) {
 	v := []uint64{500, 600, 2, 1500}[c.Int("value", 4)]
 	b := SignedReport(d.Key, d.ID, now-back, v).Encode()
 	op := &c13Op{kind: "report"}
-	op.apply = func() { h.N.Model.Deliver(b, now) }
+	// The handler reads the clock inside its critical section: the effect is
+	// evaluated with the clock at that moment (the operation may have been
+	// parked in front of the lock while the clock was moved).
+	op.apply = func() { h.N.Model.Deliver(b, Slot()) }
 	st.run(op, func() *Task {
 		return st.w.Go("udp@"+h.N.Name, func() { h.N.S.VerifHandleDatagram(b) })
 	})
@@ -634,11 +654,29 @@ func runC13(m *Sim) {
 	// Swarm: a seeded subset of the sites is active in this run.
 	var on []string
 	for _, s := range c13Sites {
-		if m.C.Chance("site-on", 3, 4) {
+		// In the A flavour every hook site is active: an operation must park at
+		// the site that follows its effect-carrying critical section (that is
+		// where its effect enters the model) before it can park at an inserted
+		// site further down the same handler.
+		if m.C.Chance("site-on", 3, 4) || os.Getenv("VERIF_AUTO_YIELD") != "" {
 			on = append(on, s)
 		}
 	}
 	w.S.EnableSites(on...)
+	if os.Getenv("VERIF_AUTO_YIELD") != "" {
+		// A flavour: the repository copy has a yield point in front of every
+		// lock acquisition; park there too (never inside a critical section).
+		w.S.AutoOn = true
+		w.S.LocksFree = func(node string) bool {
+			s := w.Servers[node]
+			if s == nil || !s.Up || s.S == nil {
+				return true
+			}
+			a, b, c := s.S.VerifTryLocks()
+			return a && b && c
+		}
+		m.Probe("c13.auto-yield")
+	}
 	w.OnPark = st.onPark
 	w.AfterStep = st.afterStep
 
@@ -691,6 +729,7 @@ func runC13(m *Sim) {
 	}
 	w.OnPark = nil
 	w.AfterStep = nil
+	w.S.AutoOn = false
 	w.S.DisableSites(c13Sites...)
 	w.Advance(150 * time.Millisecond)
 	h.AfterRotations()
